@@ -2,12 +2,16 @@
 import json, pathlib, sys
 HERE = pathlib.Path(__file__).resolve().parent
 sys.path.insert(0, str(HERE))
+import importlib
 import registry
 
 def main():
     checks = []
     for pid in registry.ALL:
-        c = registry.CLAIMED.get(pid)
+        try:
+            c = getattr(importlib.import_module(f"props.{pid.lower()}"), "MANIFEST", None)
+        except ModuleNotFoundError:
+            c = None
         if not c:
             continue
         checks.append({
@@ -22,7 +26,7 @@ def main():
             "technique": c["technique"],
         })
     na = [{"property_id": pid, "reason": registry.NA.get(pid, registry.NOT_YET) if hasattr(registry, "NA") else registry.NOT_YET}
-          for pid in registry.ALL if pid not in registry.CLAIMED]
+          for pid in registry.ALL if pid not in {c["property_id"] for c in checks}]
     man = {
         "version": 1,
         "setup_cmd": "./check --setup",
